@@ -15,10 +15,15 @@ static INSTALLED: AtomicBool = AtomicBool::new(false);
 
 /// Options of the currently running case.
 pub static TRACE_DG: AtomicBool = AtomicBool::new(false);
+/// Concurrent campaigns: after the threads have joined, read back every interned handle held by
+/// a memo that a request of the final revision validated.
+pub static READ_BACK: AtomicBool = AtomicBool::new(false);
 /// ThreadSanitizer runs: the harness's logical clock uses relaxed increments so that it adds no
 /// happens-before edges that could hide races in salsa; ordering-based monitors are then off.
 pub static RELAXED_CLOCK: AtomicBool = AtomicBool::new(false);
 pub static LOG_FP: AtomicBool = AtomicBool::new(false);
+/// delays inside the event callback (see `failpoint::event_delay`); on during the parallel phase
+pub static EV_DELAY: AtomicBool = AtomicBool::new(false);
 /// failpoint delay profile: 0 = off
 pub static FP_PROFILE: AtomicU64 = AtomicU64::new(0);
 pub static FP_SEED: AtomicU64 = AtomicU64::new(0);
